@@ -21,8 +21,25 @@ def check(w):
     if w.tier == "quick":
         import random
         scen = random.Random(w.seed).sample(scen, len(scen) // 5)
+    # ids WITH A LOCAL NAME: a share of the -o/-g scenarios also sends id lists that name the foreign ids after accounts of
+    # this machine ("daemon", group "sys") or after accounts that do not exist here.  This implementation receives the
+    # lists and looks the names up, but applies owners as the NUMBERS they are (internal/receiver/generatoruid.go uses
+    # f.Uid / f.Gid; Transfer.Users / Groups are never read) - which is "the source's owner and group" in the numeric
+    # sense and what the specification is told to expect here: no id is mapped (lid = -1 for every name, see
+    # RecvTrace!MapId).  What this part decides: id lists with names do not disturb the session or the owners.
+    import random as _rn
+    users = [{"id": 1234, "name": "daemon"}, {"id": 7, "name": "no-such-user-xq"}]
+    groups = [{"id": 4321, "name": "sys"}, {"id": 7, "name": "no-such-group-xq"}]
+    umap = [{"id": u["id"], "lid": -1} for u in users]
+    gmap = [{"id": g["id"], "lid": -1} for g in groups]
+    rn = _rn.Random(w.seed + 11)
+    named = [dict(s, users=users, groups=groups, umap=umap, gmap=gmap, named=True) for s in scen if s["opts"].get("o") and rn.random() < (0.25 if w.tier == "quick" else 0.5)]
+    scen = scen + named
     counts = {"traces": 0, "trace_states": 0}
     obs, rej = p_recv.run_validate_confirm(w, "c11", scen, "c11", v, counts, sig, judge=JUDGE)
+    n_named = sum(1 for o in obs if o.get("umap") and o["id"] not in rej and any(n.get("uid") == 1234 for n in o["final"]))
+    if not n_named:
+        raise Broken("vacuous: no accepted run in which named id lists were sent and a foreign owner was applied")
     nneg = p_recv.negative_controls(w, "c11", obs, rej, w.seed)
     # ---- the REAL sender on the other end, with TWO source arguments (everything below "d" comes from the second one):
     #      the sender's "same as the previous entry" state must not leak from one source argument into the next.  The last
@@ -56,6 +73,7 @@ def check(w):
         "scenarios": len(scen), "evaluations": len(obs), "distinct_nontrivial": nontriv, "runs_with_foreign_owner_applied": chowned, "end_to_end_runs_with_two_sources": len(eobs),
         "rule": "attribute classes (file perms 0000/0400/0555/0644/0777/0200, dir perms 0755/0555/0700/0500, mtimes -2e9, -2, 1, 1000, 2e9) x all subsets of {-p,-t,-l,-c} x {-o -g on/off; sources owned by 1234:4321, 1234:0, 0:4321} with -D, files, directories, a symlink, a fifo and a character device, x prior destination {absent, present with other attributes}, "
                 "incl. a read-only directory with content; non-trivial = at least one preserve option on",
+        "id_lists_with_names": {"accepted_runs_with_foreign_owner_applied": n_named, "users": users, "groups": groups, "rule": "owners are applied numerically; names are received, looked up and not applied"},
         "action_coverage": cov, "negative_controls": nneg, "worker_crashes": counts.get("crashed", 0),
     }
     v.assumptions = ["only what the property states is constrained: new-file mode without -p, directory mtimes and symlink permissions are not compared"]
